@@ -379,6 +379,93 @@ fn run_ro(case: &Sx) -> Sx {
     Sx::L(out)
 }
 
+// ------------------------------------------------------------------ conc leg
+
+/// Simultaneous lookups right after a read-only cache was started over a directory whose scan takes a
+/// while ([ballast] empty directories, which the stores walk but never index): the thread the schedule
+/// names first starts, the others follow 3 ms later while it is still opening the store.  Then the same
+/// lookups once more, one after the other.  Prints the answers and whether the tree is unchanged.
+fn run_conc(case: &Sx) -> Sx {
+    let td = tempfile::Builder::new().prefix("vh-c15k-").tempdir_in("/dev/shm").unwrap();
+    let root = td.path().join("cache");
+    std::fs::create_dir_all(&root).unwrap();
+    for f in case.arg(2).list() {
+        let rel = f.arg(0).bytes();
+        let p = root.join(OsStr::from_bytes(rel));
+        std::fs::create_dir_all(p.parent().unwrap()).unwrap();
+        std::fs::write(&p, content(rel, f.arg(3).u64(), f.arg(1).u64() as usize)).unwrap();
+        set_file_mtime(&p, FileTime::from_unix_time(BASE + f.arg(2).u64() as i64, 0)).unwrap();
+    }
+    let ballast = case.arg(6).u64();
+    for i in 0..ballast {
+        let sub = if i % 2 == 0 { "zz" } else { "preprocessor/zz" };
+        std::fs::create_dir_all(root.join(format!("{}/{:03}/d{}", sub, i % 512, i))).unwrap();
+    }
+    let snapshot = |root: &Path| {
+        let (mut files, mut dirs) = (vec![], vec![]);
+        walk(root, root, &mut files, &mut dirs);
+        let mut l: Vec<(Vec<u8>, u64, Vec<u8>)> = files
+            .into_iter()
+            .map(|(rel, p)| {
+                let b = std::fs::read(&p).unwrap_or_default();
+                (rel, b.len() as u64, blake3::hash(&b).as_bytes().to_vec())
+            })
+            .collect();
+        l.sort();
+        dirs.sort();
+        (l, dirs)
+    };
+    let before = snapshot(&root);
+    let rt = tokio::runtime::Builder::new_multi_thread().worker_threads(2).enable_all().build().unwrap();
+    let disk: Arc<dyn Storage> = Arc::new(DiskCache::new(
+        &root,
+        case.arg(1).u64(),
+        rt.handle(),
+        PreprocessorCacheModeConfig::activated(),
+        CacheMode::ReadOnly,
+    ));
+    let st: Arc<dyn Storage> = if case.arg(0).as_bool() { Arc::new(ReadOnlyStorage(disk)) } else { disk };
+    let lookups: Vec<(bool, String)> =
+        case.arg(3).list().iter().map(|o| (o.tag() == "ppget", o.arg(1).str())).collect();
+    async fn one(st: Arc<dyn Storage>, pp: bool, k: String) -> &'static str {
+        if pp {
+            match st.get_preprocessor_cache_entry(&k).await {
+                Ok(Some(_)) => "found",
+                Ok(None) => "none",
+                Err(_) => "err",
+            }
+        } else {
+            match st.get(&k).await {
+                Ok(Cache::Hit(_)) => "hit",
+                Ok(Cache::Miss) => "miss",
+                Ok(_) => "other",
+                Err(_) => "err",
+            }
+        }
+    }
+    let leader = case.arg(4).list().first().map(|t| t.u64() as usize).unwrap_or(0).min(lookups.len().saturating_sub(1));
+    let mut handles: Vec<Option<tokio::task::JoinHandle<&'static str>>> = (0..lookups.len()).map(|_| None).collect();
+    if !lookups.is_empty() {
+        let (pp, k) = lookups[leader].clone();
+        handles[leader] = Some(rt.spawn(one(st.clone(), pp, k)));
+        std::thread::sleep(std::time::Duration::from_millis(3));
+    }
+    for (i, (pp, k)) in lookups.iter().enumerate() {
+        if i != leader {
+            handles[i] = Some(rt.spawn(one(st.clone(), *pp, k.clone())));
+        }
+    }
+    let burst: Vec<Sx> = handles
+        .into_iter()
+        .map(|h| Sx::sym(rt.block_on(h.unwrap()).unwrap_or("panic")))
+        .collect();
+    let again: Vec<Sx> =
+        lookups.iter().map(|(pp, k)| Sx::sym(rt.block_on(one(st.clone(), *pp, k.clone())))).collect();
+    drop(st);
+    let after = snapshot(&root);
+    Sx::L(vec![Sx::L(burst), Sx::L(again), Sx::bool(before == after)])
+}
+
 // ------------------------------------------------------------------ config leg
 
 const DISK_VARS: [&str; 4] = ["SCCACHE_DIR", "SCCACHE_CACHE_SIZE", "SCCACHE_DIRECT", "SCCACHE_LOCAL_RW_MODE"];
@@ -493,8 +580,9 @@ fn main() {
     match leg.as_str() {
         "ro" => vh::run_lines(run_ro),
         "config" => vh::run_lines(run_config),
+        "conc" => vh::run_lines(run_conc),
         _ => {
-            eprintln!("usage: c15 ro|config");
+            eprintln!("usage: c15 ro|config|conc");
             std::process::exit(2);
         }
     }
